@@ -54,7 +54,16 @@ def tlc_trace(spec, cfg, trace, metadir, timeout=900, extra_env=None):
     shutil.rmtree(metadir, ignore_errors=True)
     return p.returncode, p.stdout
 
-RUNVIOL = re.compile(r'<<"RUNVIOL", (\d+), \{([^}]*)\}, \{([^}]*)\}, \{([^}]*)\}>>')
+# TLC wraps long values over several lines: be tolerant about white space
+RUNVIOL = re.compile(r'<<\s*"RUNVIOL",\s*(\d+),\s*\{([^}]*)\},\s*\{([^}]*)\},\s*\{([^}]*)\}\s*>>')
+
+def tagged(out, tag):
+    """all PrintT tuples <<"TAG", n, ...>> of a TLC output, as (n, text)"""
+    res = []
+    for m in re.finditer(r'<<\s*"' + tag + r'",\s*(-?\d+)\s*,?(.*?)>>', out, re.S):
+        res.append((int(m.group(1)), " ".join(m.group(0).split())))
+    return res
+
 
 def observe(trace_files, workdir, njvm=16):
     """Observer over each trace file. Returns ({run: set(props)}, lines, stats)."""
